@@ -38,13 +38,13 @@ func init() {
 		},
 		Bounds: func(tier string) map[string]interface{} {
 			return map[string]interface{}{
-				"qr":  "module matrices of 1,2,3,5 (thorough up to 8) modules per side with every module free; quiet zone {0,1,4,7,20} (thorough 0..20); requested width and height each from {0,1,n,f-1,f,f+1,2f-1,2f,2f+1,3f+2,8n+8}, f = n+2q; every output pixel compared with the property's formula",
-				"dm":  "symbols 1x1 .. 18x8 with every module free; requested sizes {0,1,n-1,n,n+1,2n-1,2n,2n+1,3n+2,8n} per axis",
-				"1d":  "codes of 1..12 (20) free modules; margins as for QR; widths as for QR, heights {0,1,2,7}",
+				"qr": "module matrices of 1,2,3,5 (thorough up to 8) modules per side with every module free; quiet zone {0,1,4,7,20} (thorough 0..20); requested width and height each from {0,1,n,f-1,f,f+1,2f-1,2f,2f+1,3f+2,8n+8}, f = n+2q; every output pixel compared with the property's formula",
+				"dm": "symbols 1x1 .. 18x8 with every module free; requested sizes {0,1,n-1,n,n+1,2n-1,2n,2n+1,3n+2,8n} per axis",
+				"1d": "codes of 1..12 (20) free modules; margins as for QR; widths as for QR, heights {0,1,2,7}",
 			}
 		},
-		Exhaustive: func(tier string) bool { return false },
-		Outside:    []string{"symbols larger than the stated sizes (the scaling arithmetic does not depend on the module count beyond what these sizes exercise: argued, not proved)", "requested sizes other than the enumerated boundary values; negative margins (C12)"},
+		Exhaustive:  func(tier string) bool { return false },
+		Outside:     []string{"symbols larger than the stated sizes (the scaling arithmetic does not depend on the module count beyond what these sizes exercise: argued, not proved)", "requested sizes other than the enumerated boundary values; negative margins (C12)"},
 		Assumptions: commonAssumptions,
 	}
 }
